@@ -56,12 +56,12 @@ class err_iter(object):
             if node is not None:
                 self.cur_node = node
             else:
-                if not self.cur_node.is_closed():
+                if not self._has_ended(self.cur_node):
                     raise IterOutOfBounds
                 node = self.cur_node.get_parent()
                 if node is None:
                     raise IterOutOfBounds
-                if not node.is_closed():
+                if node.id != 'ROOT' and not self._has_ended(node):
                     raise IterOutOfBounds
                 if node.id == 'ROOT':
                     # Stay on the last interchange: a following ISA loop
@@ -71,6 +71,19 @@ class err_iter(object):
                     del self.visit_stack[-1]
                 self.cur_node = node
                 #    raise IterDone
+
+    @staticmethod
+    def _has_ended(node):
+        """
+        A loop has ended when its trailer was seen, and also - whether the
+        trailer ever came or not - when it or an enclosing loop has a successor
+        or the enclosing loop was closed
+        """
+        while node is not None and node.id != 'ROOT':
+            if node.is_closed() or node.get_next_sibling() is not None:
+                return True
+            node = node.get_parent()
+        return False
 
     def get_cur_node(self):
         return self.cur_node
